@@ -835,6 +835,24 @@ func genICase(prop string) *rapid.Generator[ICase] {
 					b2.IDs = []string{"m0"}
 				}
 				c.B2 = &b2
+			} else if focus && rapid.Bool().Draw(t, "operator_motif") {
+				// A selects messages by filter; inside A (between its selection and its update) the selected message
+				// is revived by id and leased to a consumer. Seed C03-14: the by-filter update had lost its state
+				// predicate and turned the leased message back into a queued one.
+				if rapid.Bool().Draw(t, "operator_motif_dead") {
+					c.Pre = append(c.Pre, QOp{K: "cancel", IDs: []string{"m0"}}, QOp{K: "resume", IDs: []string{"m0"}},
+						QOp{K: "deq", Route: "/a", Target: "pull", N: 1, TTLMs: 60000})
+					last := LRef{K: -1}
+					c.Pre = append(c.Pre, QOp{K: "dead", L: &last, Reason: "r"})
+					c.A = QOp{K: "requeuef", State: rapid.SampledFrom([]string{"", "dead"}).Draw(t, "a_state"), N: rapid.SampledFrom([]int{0, 2}).Draw(t, "a_limit")}
+					c.B = QOp{K: rapid.SampledFrom([]string{"rqdead", "requeue"}).Draw(t, "b_kind"), IDs: []string{"m0"}}
+				} else {
+					c.Pre = append(c.Pre, QOp{K: "cancel", IDs: []string{"m0"}})
+					c.A = QOp{K: rapid.SampledFrom([]string{"requeuef", "resumef"}).Draw(t, "a_kind"),
+						State: rapid.SampledFrom([]string{"", "canceled"}).Draw(t, "a_state"), N: rapid.SampledFrom([]int{0, 2}).Draw(t, "a_limit")}
+					c.B = QOp{K: rapid.SampledFrom([]string{"resume", "requeue"}).Draw(t, "b_kind"), IDs: []string{"m0"}}
+				}
+				c.B2 = &QOp{K: "deq", Route: "/a", Target: "pull", N: 1, TTLMs: 60000}
 			} else {
 				b2 := genIOp(t, "z", pool, focus)
 				c.B2 = &b2
